@@ -121,7 +121,12 @@ var cigarOps = []string{"M", "I", "D", "N", "S", "H", "P", "=", "X", "B", "?"}
 //	CigarEqual          1        1
 //	CigarMismatch       1        1
 //	CigarBack           0       -1
-func (ct CigarOpType) Consumes() Consume { return consume[ct] }
+func (ct CigarOpType) Consumes() Consume {
+	if ct > lastCigar {
+		ct = lastCigar
+	}
+	return consume[ct]
+}
 
 // String returns the string representation of a CigarOpType.
 func (ct CigarOpType) String() string {
